@@ -97,7 +97,8 @@ TOTAL_ITER_RE = _re.compile(
     r'|<core::(iter|slice)::(Enumerate|Filter|Skip|Take|Map|Rev|Zip|Chain|Cloned|Copied|FilterMap|TakeWhile|SkipWhile|'
     r'Inspect|Fuse|Iter|IterMut) as core::iter::(Iterator|DoubleEndedIterator|ExactSizeIterator)>::'
     r'(next|next_back|position|any|all|find|find_map|count|last|fold|for_each|len|size_hint|nth)'
-    r'|core::mem::drop)$')
+    r'|core::mem::drop'
+    r'|alloc::(vec::Vec|collections::(BinaryHeap|VecDeque|BTreeMap|BTreeSet)|string::String)::new)$')
 
 # third-party entry points that are documented to return Result for every input; their internals are outside
 # the crate (trusted: see DESIGN section 9)
